@@ -242,6 +242,8 @@ def transfer(fn, ev, facts):
                 return _kill(facts, str(p))
             return facts
         facts = _kill(facts, var)
+        if o == '|=' and rhs is not None and const_of(strip_casts(rhs)) not in (None, 0):
+            return _add_facts(facts, [(var, 'ne', 0)])
         if o == '=' and rhs is not None:
             r = strip_casts(rhs)
             c = const_of(r)
